@@ -276,6 +276,15 @@ def oneof_programs():
     p = P('oneof_cancel_sibling', nodes, 'A', 'O', tags=['oneof', 'D5'])
     out += variants(p, [[R({'U1': ['raise:E1']})], [R({})], [R({'U1': ['raise:E1'], 'K2': ['raise:E2']})]],
                     ['u1fails', 'ok', 'allfail'])
+    # a switch inside a candidate's sub-pipeline: the nodes run for the switch are not members of the candidate's
+    # reduced dag, their failures must still fail the candidate (and only the candidate)
+    nodes = [N('A'), N('S', I('p1', 'A')), N('X', I('p1', 'A')), N('C1', I('p1', 'X')), N('C2', I('p1', 'A')),
+             N('W', SW('p1', 'S', [('l1', 'C1'), ('l2', 'C2')], name='sw')), N('K1', I('p1', 'W')), N('K2', I('p1', 'A')),
+             N('O', OO('p1', ['K1', 'K2']))]
+    p = P('oneof_switch_inside', nodes, 'A', 'O', tags=['oneof', 'switch'])
+    out += variants(p, [[R({'S': ['label:l1'], 'X': ['raise:E1']})], [R({'S': ['label:l1'], 'C1': ['raise:E1']})],
+                        [R({'S': ['label:l1']})], [R({'S': ['label:zz']})], [R({'S': ['label:l2'], 'X': ['raise:E1']})]],
+                    ['xfails', 'c1fails', 'ok', 'unknown', 'l2_xfails'])
     # retry inside a candidate
     nodes = [N('A'), N('K1', I('p1', 'A'), attempts=2), N('K2', I('p1', 'A')), N('O', OO('p1', ['K1', 'K2']))]
     p = P('oneof_retry', nodes, 'A', 'O', tags=['oneof', 'retry'])
